@@ -13,12 +13,17 @@ Programs are token streams; expressions are in postfix form.
 
 ```
 statement := "=.<x>" expr ";" | "al.<h>.<x>" ";" | "i.<op>.<x>" expr ";"
-           | "set.at0.<i>.<x>" expr ";" | "set.atl.<i>.<x>" expr ";" | "set.sl.<a>.<b>.<c>.<x>" expr ";"
-           | "setm.<x>" expr(mask) "," expr ";"
+           | "set.<ix>.<x>" expr ";" | "setm.<x>" expr(mask) "," expr ";"
+           | "iset.<op>.<ix>.<x>" expr ";" | "isetm.<op>.<x>" expr(mask) "," expr ";"
+           | "out.<op>.<x>" expr "," expr ";" | "sreal.<x>" expr ";" | "simag.<x>" expr ";"
+           | "fill.<x>" expr ";" | "sortip.<x>" ";"
+ix        := at0.<i> | atl.<i> | sl.<a>.<b>.<c> | psl.<a|n>.<b|n>.<c> | tk.[i,j,…]
 expr tok  := "v<x>" | "L:<shape>:<k>:<re>[:<im>]" | "S:<k>:<re>[:<im>]" | "F:<g>:<shape>:<k>:<re>[:<im>]"
            | add sub mul div max min gt lt | neg pos abs sq conj re im
            | "<red>.<axis>" (sum mean max min . all last first)
-           | "at0.<i>" | "atl.<i>" | "sl.<a>.<b>.<c>" | mask | shaped | "rs.<shape>" | ravel | copy | pickle
+           | ge le eq ne and or | not | "<ix>" | mask | shaped | "rs.<shape>" | ravel | copy | pickle
+           | "rk.<red>.<axis>" (keepdims) | "cs.<axis>" | "cp.<axis>" | sort | argsort | "amax.<axis>" | "amin.<axis>"
+           | "as.<k>" | ftrace | fdot | mm1 | where | clip        (red also: prod any all; k also: i)
 ```
 Answer: `ok O <obs>* | N <obs>* | DO <obs>* | DN <obs>*` — the per-statement observations of the
 subclass route and of the wrapper route, then the final read-out of every variable under each.
@@ -31,10 +36,10 @@ structure St where
   grids : Grids := []
 
 def parseKind? : String → Option Kind
-  | "r" => some .real | "c" => some .cplx | "b" => some .bool | _ => none
+  | "r" => some .real | "c" => some .cplx | "b" => some .bool | "i" => some .int | _ => none
 
 def showKind : Kind → String
-  | .real => "r" | .cplx => "c" | .bool => "b"
+  | .real => "r" | .cplx => "c" | .bool => "b" | .int => "i"
 
 def mkData (re : List Rat) (im : List Rat) : List Cx :=
   if im.isEmpty then re.map fun r => ⟨r, 0⟩ else List.zipWith (fun r i => ⟨r, i⟩) re im
@@ -53,14 +58,17 @@ def parseArr? : List String → Option Arr
 
 def parseBin? : String → Option BinOp
   | "add" => some .add | "sub" => some .sub | "mul" => some .mul | "div" => some .div
-  | "max" => some .max | "min" => some .min | "gt" => some .gt | "lt" => some .lt | _ => none
+  | "max" => some .max | "min" => some .min | "gt" => some .gt | "lt" => some .lt
+  | "ge" => some .ge | "le" => some .le | "eq" => some .eq | "ne" => some .ne
+  | "and" => some .and | "or" => some .or | _ => none
 
 def parseUn? : String → Option UnOp
   | "neg" => some .neg | "pos" => some .pos | "abs" => some .abs | "sq" => some .sq
-  | "conj" => some .conj | "re" => some .re | "im" => some .im | _ => none
+  | "conj" => some .conj | "re" => some .re | "im" => some .im | "not" => some .not | _ => none
 
 def parseRed? : String → Option RedOp
-  | "sum" => some .sum | "mean" => some .mean | "max" => some .max | "min" => some .min | _ => none
+  | "sum" => some .sum | "mean" => some .mean | "max" => some .max | "min" => some .min
+  | "prod" => some .prod | "any" => some .any | "all" => some .all | _ => none
 
 def parseAxis? : String → Option Axis
   | "all" => some .all | "last" => some .last | "first" => some .first | _ => none
@@ -69,6 +77,23 @@ def parseIx? : List String → Option Ix
   | ["at0", i] => (parseInt? i).map .at0
   | ["atl", i] => (parseInt? i).map .atLast
   | ["sl", a, b, c] => do pure (.slice (← parseNat? a) (← parseNat? b) (← parseNat? c))
+  | ["psl", a, b, c] => do
+    let a ← if a == "n" then some none else (parseInt? a).map some
+    let b ← if b == "n" then some none else (parseInt? b).map some
+    pure (.pyslice a b (← parseInt? c))
+  | ["tk", l] => (parseIntList? l).map .takeLast
+  | _ => none
+
+def parseFn1? : List String → Option Prim.Fn1
+  | ["rk", r, ax] => do pure (.redKeep (← parseRed? r) (← parseAxis? ax))
+  | ["cs", ax] => (parseAxis? ax).map .cumsum
+  | ["cp", ax] => (parseAxis? ax).map .cumprod
+  | ["sort"] => some .sortLast
+  | ["argsort"] => some .argsortLast
+  | ["amax", ax] => (parseAxis? ax).map .argmax
+  | ["amin", ax] => (parseAxis? ax).map .argmin
+  | ["as", k] => (parseKind? k).map .astype
+  | ["ftrace"] => some .fieldTrace
   | _ => none
 
 /-- one postfix token applied to the expression stack (top = head) -/
@@ -99,7 +124,15 @@ def pushTok (stack : List Expr) (tok : String) : Option (List Expr) :=
     | some u, e :: rest => some (.un u e :: rest)
     | some _, _ => none
     | none, _ =>
+    match parseFn1? (tok.splitOn "."), stack with
+    | some f, e :: rest => some (.app1 f e :: rest)
+    | some _, _ => none
+    | none, _ =>
     match tok, stack with
+    | "fdot", b :: a :: rest => some (.app2 .fieldDot a b :: rest)
+    | "mm1", b :: a :: rest => some (.app2 .matmul1d a b :: rest)
+    | "where", c :: b :: a :: rest => some (.app3 .where_ a b c :: rest)
+    | "clip", c :: b :: a :: rest => some (.app3 .clip a b c :: rest)
     | "mask", m :: e :: rest => some (.mask e m :: rest)
     | "shaped", e :: rest => some (.shaped e :: rest)
     | "ravel", e :: rest => some (.ravel e :: rest)
@@ -130,13 +163,27 @@ def parseStmt? (toks : List String) : Option Stmt :=
     match hd.splitOn "." with
     | ["=", x] => do pure (.assign (← parseNat? x) (← parseExpr? body))
     | ["al", h, x] => if body.isEmpty then do pure (.alias (← parseNat? h) (← parseNat? x)) else none
-    | ["i", op, x] => do pure (.iop (← parseNat? x) (← parseBin? op) (← parseExpr? body))
+    | ["i", op, x] => do pure (.update (← parseNat? x) (.iop (← parseBin? op)) [← parseExpr? body])
     | ["setm", x] =>
       let (m, e) := splitAt "," body
-      do pure (.setMask (← parseNat? x) (← parseExpr? m) (← parseExpr? e))
+      do pure (.update (← parseNat? x) .setMask [← parseExpr? m, ← parseExpr? e])
+    | ["isetm", op, x] =>
+      let (m, e) := splitAt "," body
+      do pure (.update (← parseNat? x) (.iopMask (← parseBin? op)) [← parseExpr? m, ← parseExpr? e])
+    | ["out", op, x] =>
+      let (a, b) := splitAt "," body
+      do pure (.update (← parseNat? x) (.out (← parseBin? op)) [← parseExpr? a, ← parseExpr? b])
+    | ["sreal", x] => do pure (.update (← parseNat? x) .setReal [← parseExpr? body])
+    | ["simag", x] => do pure (.update (← parseNat? x) .setImag [← parseExpr? body])
+    | ["fill", x] => do pure (.update (← parseNat? x) .fill [← parseExpr? body])
+    | ["sortip", x] => if body.isEmpty then do pure (.update (← parseNat? x) .sortLast []) else none
     | "set" :: rest =>
       match rest.reverse with
-      | x :: ixr => do pure (.setIx (← parseNat? x) (← parseIx? ixr.reverse) (← parseExpr? body))
+      | x :: ixr => do pure (.update (← parseNat? x) (.setIx (← parseIx? ixr.reverse)) [← parseExpr? body])
+      | [] => none
+    | "iset" :: op :: rest =>
+      match rest.reverse with
+      | x :: ixr => do pure (.update (← parseNat? x) (.iopIx (← parseIx? ixr.reverse) (← parseBin? op)) [← parseExpr? body])
       | [] => none
     | _ => none
 
